@@ -99,6 +99,16 @@ def transition_family():
 # The second phase also fixes the kinds of the persistent inputs for kind inference (a persistent variable that
 # is only ever read has no kind, and the Fortran target does not support such methods).
 P1_CALLS = [assign(N, C(0)), assign(M, C(2)), acall([Y], "<func>rhs", [V("<t>"), V(Y)]), {"op": "switch", "to": "p0"}]
+# a second phase that uses the SAME temporary names as the first one and calls the right-hand side inside expressions
+# (the statement rewriters then create statements with the same ids in both phases)
+P1_SAME_NAMES = [assign(N, C(0)), assign(M, C(2)), assign("w", P(C(2), V(Y))),
+                 assign(Y, S(V("w"), P(V("<dt>"), ["call", V("<func>rhs"), [V("<t>"), V("w")], []]))),
+                 {"op": "switch", "to": "p0"}]
+P1_LAST_USE_IN_CALL = [assign(N, C(0)), assign(M, C(2)), assign("w", P(C(2), V(Y))),
+                       assign(Y, S(V(Y), P(V("<dt>"), ["call", V("<func>rhs"), [V("<t>"), V("w")], []]))),
+                       {"op": "switch", "to": "p0"}]
+CALL_IN_EXPR = [acall(["k"], "<func>rhs", [V("<t>"), V(Y)]), assign("w", S(V(Y), P(V("<dt>"), V("k")))),
+                assign(Y, S(V("w"), P(V("<dt>"), ["call", V("<func>rhs"), [V("<t>"), V("w")], []]))), yield_(V(Y))]
 
 
 def registry():
